@@ -554,15 +554,28 @@ func ruleW5(r *Run) {
 		return
 	}
 	info := pkg.TypesInfo
+	gateWhy := ""
 	hasRecover := func(fd *ast.FuncDecl) bool {
 		found := false
+		gateWhy = ""
 		ast.Inspect(fd.Body, func(n ast.Node) bool {
 			if d, ok := n.(*ast.DeferStmt); ok && p.deferRecovers(info, d) {
-				found = true
+				// installed for every key type whose values can be unhashable?
+				if ok, why := p.recoverGate(info, fd, d); ok {
+					found = true
+				} else {
+					gateWhy = why
+				}
 			}
 			return true
 		})
 		return found
+	}
+	gated := func(msg string) string {
+		if gateWhy != "" {
+			return "the recover around the insertion is " + gateWhy + "; " + msg
+		}
+		return msg
 	}
 	// insertsParam: fd passes its parameter #i as the key of UnsafeSetIndex
 	insertsKeyParam := func(fd *ast.FuncDecl) int {
@@ -616,7 +629,8 @@ func ruleW5(r *Run) {
 			if methodName(c) == "UnsafeSetIndex" && len(c.Args) == 3 {
 				if o := identObj(info, c.Args[1]); o != nil && wireKeys[o] {
 					n++
-					r.Check(hasRecover(fd), fmt.Sprintf("wire-keyed map insertion in %s #%d", p.DeclName(fd), n), c.Pos(), "under a deferred recover", "the key was decoded from the wire and is inserted without a recover: for a key type that can hold an interface value, a list/map/bytes item in key position (`m1{a0{}1}`) panics with hash of unhashable type")
+					okR := hasRecover(fd)
+					r.Check(okR, fmt.Sprintf("wire-keyed map insertion in %s #%d", p.DeclName(fd), n), c.Pos(), "under a deferred recover", gated("the key was decoded from the wire and is inserted without a recover: for a key type that can hold an interface value, a list/map/bytes item in key position (`m1{a0{}1}`) panics with hash of unhashable type"))
 				}
 				return true
 			}
@@ -625,7 +639,8 @@ func ruleW5(r *Run) {
 					if ki := insertsKeyParam(d); ki >= 0 && ki < len(c.Args) {
 						if o := identObj(info, c.Args[ki]); o != nil && wireKeys[o] {
 							n++
-							r.Check(hasRecover(d), fmt.Sprintf("wire-keyed map insertion in %s #%d", p.DeclName(fd), n), c.Pos(), "the inserting helper "+p.DeclName(d)+" recovers", "the key was decoded from the wire and is inserted by "+p.DeclName(d)+" without a recover: a list/map/bytes item in key position panics with hash of unhashable type")
+							okR := hasRecover(d)
+							r.Check(okR, fmt.Sprintf("wire-keyed map insertion in %s #%d", p.DeclName(fd), n), c.Pos(), "the inserting helper "+p.DeclName(d)+" recovers", gated("the key was decoded from the wire and is inserted by "+p.DeclName(d)+" without a recover: a list/map/bytes item in key position panics with hash of unhashable type"))
 						}
 					}
 				}
